@@ -34,9 +34,12 @@ def sh_quote(s):
     return "'" + s.replace("'", "'\"'\"'") + "'"
 
 
-def make_cmd(workdir, out, err, code, files):
-    """Write cmd.sh producing exactly these outputs; the command line is constant."""
+def make_cmd(workdir, out, err, code, files, extra=()):
+    """Write cmd.sh producing exactly these outputs; the command line is constant.  `extra` are shell lines whose
+    output depends on the environment the command runs in (temporary directory, cwd, host, user): repeatable, but
+    different text under gentest's own TMPDIR and under the generated script's."""
     lines = ['#!/bin/sh']
+    lines.extend(extra)
     if out:
         lines.append('printf %%s %s' % sh_quote(out))
     if err:
@@ -114,7 +117,7 @@ def do_case(args):
         os.makedirs(os.path.join(work, 'sub'))
         with open(os.path.join(work, 'sub', 'other.dat'), 'wb') as f:
             f.write(b'\x00\x01')
-        make_cmd(work, case['out'], case['err'], case['code'], case['files'])
+        make_cmd(work, case['out'], case['err'], case['code'], case['files'], case.get('extra', ()))
         # the command's own outputs exist before generation too (run it once)
         subprocess.run(['sh', 'cmd.sh'], cwd=work, capture_output=True)
         script = case['script'] if case['script'].endswith('.py') else case['script'] + '.py'
@@ -178,7 +181,7 @@ def do_case(args):
             if c2['out'] == case['out'] and c2['err'] == case['err'] and c2['code'] == case['code'] \
                     and c2['files'] == case['files']:
                 continue
-            make_cmd(work, c2['out'], c2['err'], c2['code'], c2['files'])
+            make_cmd(work, c2['out'], c2['err'], c2['code'], c2['files'], c2.get('extra', ()))
             if delta.get('_delete'):
                 p = os.path.join(work, delta['_delete'])
                 if os.path.exists(p):
@@ -194,7 +197,7 @@ def do_case(args):
                 b.check('C12.other-tests-keep-passing', set(failed2) <= {testname}, w2,
                         'failed %r' % (failed2,))
         # unchanged again: passes
-        make_cmd(work, case['out'], case['err'], case['code'], case['files'])
+        make_cmd(work, case['out'], case['err'], case['code'], case['files'], case.get('extra', ()))
         code3, failed3, _, tail3 = run_script(work, script_name)
         b.check('C12.unchanged-keeps-passing', code3 == 0 and not failed3, w, 'exit %r failed %r' % (code3, failed3))
     except Exception:
@@ -220,6 +223,10 @@ def gen_cases(tier, seed):
         ({'a/Report.txt': 'report A\n', 'b/Report.txt': 'report B\n'}, ['a/Report.txt', 'b/Report.txt']),
         ({'x/data.txt': 'one\n', 'y/data.txt': 'two\n'}, ['x', 'y']),
         ({'STDOUT': 'a file called STDOUT\n'}, ['STDOUT']),
+        # a qualified name (x + '2') that is already another file's name
+        ({'a/x2': 'first\n', 'b/x': 'second\n', 'c/x': 'third\n'}, ['a/x2', 'b/x', 'c/x']),
+        # output files named like the generated script's own checks
+        ({'stdout': 'a file called stdout\n', 'exit_code': 'a file called exit_code\n'}, ['stdout', 'exit_code']),
     ]
     for i, (files, refs) in enumerate(filesets):
         cases.append(dict(out='made files\n', err='', code=0, files=files, refs=refs, script='test_f%d' % i, iterations=2))
@@ -230,6 +237,22 @@ def gen_cases(tier, seed):
     cases.append(dict(out='nostderr\n', err='e\n', code=0, files={}, refs=[], script='test_ne', iterations=2, no_stderr=True))
     cases.append(dict(out='rel\n', err='', code=0, files={'r.txt': 'r\n'}, refs=['r.txt'], script='sub/test_rel.py',
                       iterations=2, relative=True))
+    # environment-dependent text on one stream only (each stream needs its own exclusions), both, or in a file
+    env_lines = [
+        ('tmp_err', ['echo "scratch files in $TMPDIR/b" >&2']),
+        ('tmp_out', ['echo "work area $TMPDIR/a"']),
+        ('tmp_both', ['echo "work area $TMPDIR/a"', 'echo "scratch $TMPDIR/b" >&2']),
+        ('cwd_err', ['echo "running in $(pwd)" >&2']),
+        ('cwd_out', ['echo "running in $(pwd)"']),
+        ('host_user_err', ['echo "on $(hostname) as $(id -un)" >&2']),
+    ]
+    for name, extra in env_lines:
+        cases.append(dict(out='hello\n', err='', code=0, files={'o.txt': 'data\n'}, refs=['o.txt'],
+                          script='test_env_' + name, iterations=2, extra=extra))
+    cases.append(dict(out='hello\n', err='', code=0, files={}, refs=[], script='test_env_ns', iterations=3, no_stdout=True,
+                      extra=['echo "scratch files in $TMPDIR/b" >&2']))
+    cases.append(dict(out='hello\n', err='', code=0, files={}, refs=[], script='test_env_ne', iterations=2, no_stderr=True,
+                      extra=['echo "work area $TMPDIR/a"', 'echo "plain" >&2']))
     if tier != 'quick':
         for i in range(40):
             out = ''.join(rnd.choice(OUTPUTS) for _ in range(rnd.randint(0, 3)))
